@@ -161,7 +161,7 @@ Definition scan_result (c : cfg) (inp : inputs) (sc : scanner) : list erule :=
 Definition wf_scanner (inp : inputs) (sc : scanner) : bool :=
   wf_globals inp (i_matches inp) (s_globals sc)
   && wf_rules inp (snd (fst (g_fold {| c_full := true; c_nm := false; c_cb := false; c_ev_match := true;
-                                       c_ev_nomatch := false; c_direct := true; c_frag_noscan := false |}
+                                       c_ev_nomatch := false; c_ev_import := false; c_ev_limit := false; c_direct := true; c_frag_noscan := false |}
                                     inp (repeat false (s_nns sc)) (i_matches inp) (s_globals sc))))
               0 (s_rules sc).
 
@@ -192,6 +192,18 @@ Proof.
   destruct (c_nm c); reflexivity.
 Qed.
 
+Lemma ac_phase_list c hits : c_cb c = false ->
+  forall s, exists k, ac_phase c Never hits s = (upd s (pend s) k, inl tt).
+Proof.
+  intros Hcb. induction hits as [|lim hits IH]; intros s; cbn [ac_phase].
+  - exists (nchecks s). unfold ret. rewrite upd_id. reflexivity.
+  - unfold bindM. destruct (tick_never 1 s) as [k1 E1]. rewrite E1. rewrite Hcb. cbn [andb]. unfold ret.
+    destruct (IH (upd s (pend s) k1)) as [k2 E2]. rewrite E2. exists k2. reflexivity.
+Qed.
+
+Lemma send_imports_list c inp : c_cb c = false -> forall s, send_imports c Never inp s = (s, inl tt).
+Proof. intros Hcb s. unfold send_imports. rewrite Hcb. reflexivity. Qed.
+
 Lemma full_scan_list c inp sc :
   c_cb c = false -> wf_scanner inp sc = true ->
   forall s, pend s = [] ->
@@ -199,7 +211,11 @@ Lemma full_scan_list c inp sc :
 Proof.
   intros Hcb Hw s Hp. unfold wf_scanner in Hw. apply andb_true_iff in Hw as [Hwg Hwr].
   unfold full_scan, scan_result.
-  unfold bindM at 1. destruct (tick_never (i_ac_checks inp) s) as [k0 E0]. rewrite E0.
+  unfold bindM at 1. destruct (ac_phase_list c (i_ac inp) Hcb s) as [k0 E0]. rewrite E0.
+  unfold bindM at 1.
+  replace ((if c_direct c then ret tt else send_imports c Never inp) (upd s (pend s) k0))
+    with (upd s (pend s) k0, @inl unit err tt)
+    by (destruct (c_direct c); [reflexivity|rewrite send_imports_list by exact Hcb; reflexivity]).
   unfold bindM at 1. unfold ctx0.
   destruct (eval_globals_list c inp (s_globals sc) Hcb (repeat false (s_nns sc)) (i_matches inp) false
               (upd s (pend s) k0) Hwg) as [k1 E1].
@@ -477,6 +493,16 @@ Proof.
 Qed.
 
 (* ------------------------------------------------------------------ the list API computes the specification *)
+Lemma do_scan_list_full c inp sc :
+  c_cb c = false -> can_noscan c = false -> wf_scanner inp sc = true ->
+  forall s, pend s = [] -> exists k, do_scan c Never inp sc s = (upd s (scan_result c inp sc) k, inl tt).
+Proof.
+  intros Hcb Hns Hw s Hp. unfold do_scan. rewrite Hns. unfold bindM.
+  replace ((if c_direct c then send_imports c Never inp else ret tt) s) with (s, @inl unit err tt)
+    by (destruct (c_direct c); [rewrite send_imports_list by exact Hcb; reflexivity|reflexivity]).
+  apply full_scan_list; assumption.
+Qed.
+
 Theorem run_scan_list_spec c inp sc :
   c_cb c = false -> can_noscan c = false ->
   wf_scanner inp sc = true -> ns_bound (s_nns sc) (s_globals sc) -> ns_bound (s_nns sc) (s_rules sc) ->
@@ -484,8 +510,8 @@ Theorem run_scan_list_spec c inp sc :
   /\ o_rules (run_scan c Never inp sc) = spec_reported sc inp (c_nm c)
   /\ o_events (run_scan c Never inp sc) = [].
 Proof.
-  intros Hcb Hns Hw Hbg Hbr. unfold run_scan, do_scan. rewrite Hns.
-  destruct (full_scan_list c inp sc Hcb Hw {| pend := []; evs := []; nchecks := 0 |} eq_refl) as [k E].
+  intros Hcb Hns Hw Hbg Hbr. unfold run_scan.
+  destruct (do_scan_list_full c inp sc Hcb Hns Hw {| pend := []; evs := []; nchecks := 0 |} eq_refl) as [k E].
   rewrite E. cbn [o_err o_rules o_events upd pend evs]. rewrite Hcb.
   repeat split. apply scan_result_spec; assumption.
 Qed.
@@ -496,9 +522,9 @@ Definition kf_scanner : scanner :=
      s_rules := [{| r_ns := 0; r_id := 0; r_global := false; r_private := false; r_nvars := 0; r_cond := EBool true |}];
      s_nns := 1 |}.
 Definition kf_inputs : inputs :=
-  {| i_matches := []; i_ext := []; i_filesize := Some 2; i_mem := Some [97; 98]; i_ac_checks := 0 |}.
+  {| i_matches := []; i_ext := []; i_filesize := Some 2; i_mem := Some [97; 98]; i_ac := []; i_imports := [] |}.
 Definition cfg_full : cfg :=
-  {| c_full := true; c_nm := false; c_cb := false; c_ev_match := true; c_ev_nomatch := false; c_direct := true;
+  {| c_full := true; c_nm := false; c_cb := false; c_ev_match := true; c_ev_nomatch := false; c_ev_import := false; c_ev_limit := false; c_direct := true;
      c_frag_noscan := false |}.
 
 Lemma global_refs_ordinary_refuted :
